@@ -187,15 +187,14 @@ func (s *Sink) flush() {
 	f, _ := os.Create(base + ".v")
 	w := bufio.NewWriter(f)
 	fmt.Fprintf(w, "From Slug Require Import %s.\n", s.corr)
-	fmt.Fprintf(w, "Definition cases : list case := [\n")
+	// one definition per case keeps the parser away from one huge list literal
+	names := make([]string, len(s.cur))
 	for i, c := range s.cur {
-		sep := ";"
-		if i == len(s.cur)-1 {
-			sep = ""
-		}
-		fmt.Fprintf(w, "  %s%s\n", c.Coq, sep)
+		names[i] = fmt.Sprintf("c%d", i)
+		fmt.Fprintf(w, "Definition c%d : case := %s.\n", i, c.Coq)
 	}
-	fmt.Fprintf(w, "].\nDefinition M := Eval vm_compute in mismatches cases.\nPrint M.\n")
+	fmt.Fprintf(w, "Definition cases : list case := [%s].\n", strings.Join(names, "; "))
+	fmt.Fprintf(w, "Definition M := Eval vm_compute in mismatches cases.\nPrint M.\n")
 	w.Flush()
 	f.Close()
 	jf, _ := os.Create(base + ".jsonl")
